@@ -27,12 +27,15 @@ vars == <<pc, a, refusals>>
 Init == pc = "pick" /\ a = [family |-> "none"] /\ refusals = {}
 PickSave ==
   /\ pc = "pick" /\ pc' = "check"
-  /\ \E k \in Kinds : \E s \in ScaleCs : \E b \in BorderCs : \E c \in ColourCs : \E w \in {"dark", "light"} : \E kc \in KindCs : \E pr \in {"none", "twin"} :
+  /\ \E k \in Kinds : \E s \in ScaleCs : \E b \in BorderCs : \E c \in ColourCs : \E w \in {"dark", "light"} : \E kc \in KindCs : \E pr \in {"none", "twin"} : \E via \in {"save", "uri", "inline"} :
        /\ (pr = "twin" => c \in HasValidTwin)
+       \* the data URI methods and svg_inline are serialisers, too: they refuse what save() refuses
+       /\ (via = "uri" => k \in {"svg", "png"} /\ kc = "known")
+       /\ (via = "inline" => k = "svg" /\ kc = "known")
        /\ (s # "default" => k \in Scaled)
        /\ (c # "default" => k \in Coloured)
        /\ Cardinality({x \in {s, b, c} : x # "default"} \cup (IF kc \notin {"known"} THEN {"kind"} ELSE {})) <= 1      \* one deviation at a time
-       /\ a' = [family |-> "save", kind |-> k, scale |-> s, border |-> b, colour |-> c, which |-> w, kindc |-> kc, prior |-> pr]
+       /\ a' = [family |-> "save", kind |-> k, scale |-> s, border |-> b, colour |-> c, which |-> w, kindc |-> kc, prior |-> pr, via |-> via]
   /\ UNCHANGED refusals
 \* command line: classes of invocations
 CliCs == {"ok_file", "ok_terminal", "ok_lower_micro_version", "ok_upper_micro_version", "ok_micro_flag", "ok_lower_error", "ok_mode_upper", "bad_version", "H_with_micro_version", "overflow_version_1", "numeric_mode_for_text", "pattern_9",
